@@ -48,8 +48,10 @@ def key_class(key):
     return 2
 
 
-def check_sorted_keys(fwd, rev, model_keys, violations, pid):
-    """fwd/rev: lists of key fingerprints from iterkeys(); model_keys: python keys."""
+def check_sorted_keys(fwd, rev, model_keys, violations, pid, order=True):
+    """fwd/rev: lists of key fingerprints from iterkeys(); model_keys: python keys.
+    order=False (a Disk that stores keys in an encoding of its own, JSONDisk): the keys handed out are the stored keys and the
+    reverse iteration is the reverse; their order is that of the encoded form and is not judged."""
     want = sorted(fp(k) for k in model_keys)
     if sorted(fwd) != want:
         violations.append({'rule': '%s/iterkeys-contents' % pid, 'sig': 'multiset',
@@ -58,6 +60,8 @@ def check_sorted_keys(fwd, rev, model_keys, violations, pid):
     if rev is not None and list(reversed(rev)) != fwd:
         violations.append({'rule': '%s/iterkeys-reverse' % pid, 'sig': 'order',
                            'detail': 'reverse iteration is not the reverse of forward iteration'})
+    if not order:
+        return
     by_fp = {fp(k): k for k in model_keys}
     seq = [by_fp[f] for f in fwd]
     classes = [key_class(k) for k in seq]
